@@ -17,5 +17,5 @@ ASSUMPTIONS = [
     "partial: singleflight's contract is assumed, not proved; which real goroutines overlap a running call is the Go scheduler's choice - the theorems cover every choice, the harness forces the overlapping ones with the gate and does not compare X-Cache of followers",
     "the stored entry stays fresh for the duration of one episode (milliseconds against max-age=3600); staleness before the episode is produced with the ageing hook VerifAge",
     "a disconnected caller's own upstream fetch is never sent (net/http refuses a request whose context is already cancelled); the harness waits for the cancellation before it lets the schedule continue",
-    "abort-mid-body schedules follow today's store-failure path (the shared fetch fails, every caller gets 502); that path belongs to C09",
+    "abort-mid-body schedules and a 304 for an entry evicted meanwhile follow the store-failure path as repaired for C09: the shared fetch ends in ErrNotCacheable and every caller fetches for itself (no 502); Properties/C09.v C09_coalesced_never_error states this over the same transition system",
 ]
